@@ -74,7 +74,20 @@ def positive_literals(ctx, crate, crs, tag):
     }
     sites = q.callers_of(crate, POS)
     # vacuity guard: the three mechanisms that legitimately create positive literals are all still seen
-    ctx.floor(R, "functions creating positive literals", len({q.enclosing_fn(crate, b) for b, i, t in sites}), 3)
+    # a literal whose polarity is computed (`Literal::new(helper, !positive)`) can be positive too: same census
+    dyn = [(b, i, t) for b, i, t in q.callers_of(crate, LIT_NEW) if t["args"][1].get("k") != "const" and not b.crate.is_test and
+           not q.enclosing_fn(crate, b).endswith(("::positive", "::negative"))]
+    ctx.floor(R, "functions creating positive literals", len({q.enclosing_fn(crate, b) for b, i, t in sites + dyn}), 3)
+    for b, i, t in dyn:
+        fn = q.enclosing_fn(crate, b)
+        d = b.origin(t["args"][0])
+        ok = fn in (ENC + "on_requirement_candidates_available", AFMC) and d["k"] == "arg" and d["l"] == 3
+        # reviewed: propagate builds the literal a decision falsifies (to walk its watch list), analyze the literal that is false under
+        # the current assignment (learnt clause); neither can imply a solvable true by itself
+        if fn in (SOLVER + "propagate", SOLVER + "analyze"):
+            ok = True
+        ctx.ob(R, fn, "Literal::new(_,computed)", ok, where_call(b, i),
+               "a literal of computed polarity is only built for the helper variable of the at-most-one encoding")
     for b, i, t in sites:
         if b.crate.is_test:
             continue
